@@ -286,6 +286,25 @@ def ob_native():
             Wm = mimo.MimoBase._calcMMSEFilter(H, s2)
             if (not (np.abs((H.conj().T @ H + s2 * np.eye(Nt)) @ Wm - H.conj().T).max() <= 1e-8 * max(1, np.abs(H).max() ** 2))):
                 return {"MMSE equation": True}
+            # the same channel stored as an integer array (e.g. a test channel typed by hand): the filters see the numbers, not the dtype
+            Hi = rr.randint(-3, 4, size=(Nr, Nt))
+            if np.linalg.matrix_rank(Hi) == Nt and np.linalg.cond(Hi.astype(float)) < 1e4:
+                for s2i in (s2, 0.25, 2.0):
+                    Wi = mimo.MimoBase._calcMMSEFilter(Hi.astype(np.int64), s2i)
+                    Wf = mimo.MimoBase._calcMMSEFilter(Hi.astype(float), s2i)
+                    if (not (np.abs(np.asarray(Wi) - Wf).max() <= 1e-12 * max(1.0, np.abs(Wf).max()))):
+                        return {"MMSE filter depends on the dtype of the channel array": float(np.abs(np.asarray(Wi) - Wf).max()), "noise_var": s2i}
+                Zi = mimo.MimoBase._calcZeroForceFilter(Hi.astype(np.int64))
+                Zf = mimo.MimoBase._calcZeroForceFilter(Hi.astype(float))
+                if (not (np.abs(np.asarray(Zi) - Zf).max() <= 1e-12 * max(1.0, np.abs(Zf).max()))):
+                    return {"ZF filter depends on the dtype of the channel array": True}
+                oi, of = getattr(mimo, sch)(Hi.astype(np.int64)), getattr(mimo, sch)(Hi.astype(float))
+                xi = rr.randn(n) + 1j * rr.randn(n)
+                for ob_ in (oi, of):
+                    ob_.set_noise_var(0.5)
+                di, df = oi.decode(Hi @ oi.encode(xi)), of.decode(Hi.astype(float) @ of.encode(xi))
+                if (not (np.abs(np.asarray(di) - np.asarray(df)).max() <= 1e-9 * max(1.0, np.abs(df).max()))):
+                    return {"scheme": sch, "decode with an MMSE filter depends on the dtype of the channel array": float(np.abs(np.asarray(di) - np.asarray(df)).max())}
             Wt = mimo.MimoBase._calcMMSEFilter(H, 1e-12)
             if (not (np.abs(Wt - W).max() <= 1e-4 * max(1, np.abs(W).max()))):
                 return {"MMSE does not tend to ZF": float(np.abs(Wt - W).max())}
